@@ -50,6 +50,7 @@ CONSTANTS
   FIXREV = TRUE
   FIXWRAP = {fixwrap}
   FIXHOPS = TRUE
+  FIXOHEXP = TRUE
   XorAcc <- SymXor
   MAXLEN = {maxlen}
   ALLCH = {allch}
@@ -66,6 +67,7 @@ CONSTANTS
   FIXREV = TRUE
   FIXWRAP = TRUE
   FIXHOPS = TRUE
+  FIXOHEXP = TRUE
   XorAcc <- SymXor
   MINLEN = 2
   MAXLEN = {maxlen}
